@@ -76,6 +76,7 @@ func C13(c *core.Ctx) {
 	// separators, upper case, no country prefix; applied to the raw text it misses the
 	// spellings the common routine would have unified, and a second normalisation gives
 	// another result than the first.
+	c13DirectValidatorCalls(c)
 	c.Rule("C13-R3", "the regime's own rewriting of a tax code comes after the common normalisation", 3)
 	for _, fd := range p.AllFuncs() {
 		rel := core.RelPkg(fd.Obj.Pkg().Path())
